@@ -267,11 +267,25 @@ func runC05(c *Ctx) {
 			})
 			okIdx = okV && okKey && dv == elem
 			if okIdx {
-				// the loop covers elements 1 .. len-1 of blockHeaders
+				// the loop covers elements 1 .. len-1 of blockHeaders (a loop
+				// over all elements that skips the first ones with a guard
+				// counts from the first element that reaches the update)
+				if first, ok := lf.firstConst(); ok {
+					if k, ok := skippedPrefix(fp, lf, mu.Block()); ok && k > first {
+						elemShift := k - first
+						_ = elemShift
+						okIdx = c.fullRangeOff(fp, h, "the loop building headerIndex (elements 1..len-1; element 0 is only the predecessor)", func(v ssa.Value) bool {
+							_, isSl := ir.Strip(v).(*ssa.Slice)
+							return !isSl && isBlockHeaders(v)
+						}, elem-1+elemShift, elem, func(*ssa.Return) bool { return true })
+						goto doneRange
+					}
+				}
 				okIdx = c.fullRangeOff(fp, h, "the loop building headerIndex (elements 1..len-1; element 0 is only the predecessor)", func(v ssa.Value) bool {
 					_, isSl := ir.Strip(v).(*ssa.Slice)
 					return !isSl && isBlockHeaders(v)
 				}, elem-1, elem, func(*ssa.Return) bool { return true })
+			doneRange:
 			}
 		}
 		c.verdict(okIdx, c.nm(fp)+" | headerIndex[blockHeaders[i].BlockHash()] = i for i from 1", c.P.Pos(fp.Pos()), "index map built from position 1 with matching key/value index", "headerIndex is not built as hash(blockHeaders[i]) -> i starting at 1 (position 0 is the predecessor used only for validation)", c.ats(ups)...)
